@@ -575,6 +575,7 @@ def c19(tier):
     srcs = [("struct", "struct X<T>(T, u8);"), ("struct", "struct X { a: u8, #[debug(ignore)] b: String }"), ("struct", "struct X(u8);"),
             ("enum", "enum X<T> { A, #[default] B(T), C { #[ord(key = $.len())] x: String } }"), ("struct", "struct X;"),
             ("struct", "struct X<T: Clone> where T: Copy { #[ord(reverse)] a: T, #[eq(ignore)] #[debug(transparent)] b: u8 }"),
+            ("struct", "#[deprecated] struct X<T>(T, #[deprecated(note = \"n\")] u8);"), ("enum", "#[allow(dead_code)] enum X<T> { #[deprecated] A, #[default] B(#[deprecated] T) }"),
             ("struct", "struct X { #[default(\"a  b\")] a: String, #[default(*b\"x\\ty   z\")] b: [u8; 7], #[ord(key = $.len() + \"p   q\".len())] c: String }")]
     N = 1500 if tier == "quick" else 15000
     cases = []
